@@ -8,7 +8,7 @@ from rustcut import AnchorLost, code_mask, match_brace
 
 CLAUSE_KEYS = ('requires', 'ensures', 'decreases', 'invariant', 'invariant_except_break',
                'proof_entry', 'proof_loop_entry', 'external_body', 'loop_ensures', 'opaque_body', 'fuel',
-               'attr', 'annotate', 'iter_name', 'proof', 'returns', 'ensures_optional')
+               'attr', 'annotate', 'iter_name', 'proof', 'returns', 'ensures_optional', 'ghost', 'ghost_entry')
 
 
 class SpecError(Exception):
@@ -239,6 +239,9 @@ def strip_comments(text):
     return ''.join(c if ok else ' ' for c, ok in zip(text, m))
 
 
+_HEADERS = {}
+
+
 def resolve_names(name, body, names_spec):
     """-> dict placeholder -> identifier, for the `@names FN` section: names of locals are looked up positionally
     (by what they are initialised with / which closure parameter / which loop variable they are), so that renaming a
@@ -274,6 +277,23 @@ def resolve_names(name, body, names_spec):
             if not mm:
                 raise AnchorLost('%s: loop #%d is not a `for X in ..` loop (placeholder %s)' % (name, k, ph))
             res[ph] = mm.group(1)
+        elif kind == 'iflet':
+            # the k-th `if let Some(X) = ..` of the function
+            ms = [mm for mm in re.finditer(r'\bif\s+let\s+Some\s*\(\s*(\w+)\s*\)\s*=', code)]
+            k = int(arg)
+            if k >= len(ms):
+                raise AnchorLost('%s: placeholder %s refers to `if let Some(..)` #%d' % (name, ph, k))
+            res[ph] = ms[k].group(1)
+        elif kind == 'param':
+            # the k-th parameter of the function (0 = the receiver)
+            hdr = _HEADERS.get(name, '')
+            i = hdr.find('(')
+            ps = split_args(hdr[i + 1:match_brace(hdr, code_mask(hdr), i, '(', ')')]) if i >= 0 else []
+            k = int(arg)
+            pm = re.match(r'(?:mut\s+)?(\w+)\s*:', ps[k]) if k < len(ps) else None
+            if not pm:
+                raise AnchorLost('%s: placeholder %s refers to parameter %d' % (name, ph, k))
+            res[ph] = pm.group(1)
         else:
             raise SpecError('unknown @names kind: ' + kind)
     return res
@@ -285,7 +305,7 @@ def subst_names(text, names):
     return text
 
 
-def weave_body(name, body, loops_spec, proof_entry, used, fn_need=None):
+def weave_body(name, body, loops_spec, proof_entry, used, fn_need=None, ghost_entry=None):
     loops = find_loops(body)
     mask = code_mask(body)
     orig_body = body
@@ -380,6 +400,11 @@ def weave_body(name, body, loops_spec, proof_entry, used, fn_need=None):
     # ---- proof hints at positional anchors (call ordinal / loop ordinal)
     for where, target, sp in getattr(loops_spec, 'hints', {}).get(name, []):
         text = subst_names(sp.get('proof', ''), names)
+        # `ghost X = EXPR`: a ghost snapshot visible to later hints, emitted in front of the proof block
+        gpre = ''
+        if sp.get('ghost'):
+            gname, _, gexpr = subst_names(sp['ghost'], names).partition('=')
+            gpre = '\n        let ghost %s = %s;' % (gname.strip(), gexpr.strip())
         used.add((name, 'hint', where, target))
         if target.startswith('loop#'):
             k = int(target[5:])
@@ -387,9 +412,9 @@ def weave_body(name, body, loops_spec, proof_entry, used, fn_need=None):
                 raise AnchorLost('%s: @hint refers to loop #%d, the function has %d loops' % (name, k, len(loops)))
             kw, br = loops[k]
             if where == 'before':
-                edits.append((stmt_start(orig_body, mask, kw), 0, '\n        proof { ' + text + ' }\n'))
+                edits.append((stmt_start(orig_body, mask, kw), 0, gpre + '\n        proof { ' + text + ' }\n'))
             else:
-                edits.append((match_brace(orig_body, mask, br) + 1, 0, '\n        proof { ' + text + ' }\n'))
+                edits.append((match_brace(orig_body, mask, br) + 1, 0, gpre + '\n        proof { ' + text + ' }\n'))
             continue
         callee, _, ordk = target.partition('#')
         calls = [mm for mm in re.finditer(r'\b%s\s*\(' % re.escape(callee), orig_body) if mask[mm.start()]
@@ -418,15 +443,19 @@ def weave_body(name, body, loops_spec, proof_entry, used, fn_need=None):
                     raise AnchorLost('%s: @hint %s uses $lhs but the call is not the initialiser of a `let`' % (name, target))
                 t = t.replace('$lhs', lm.group(1))
             if where == 'before':
-                edits.append((stmt_start(orig_body, mask, mm.start()), 0, '\n        proof { ' + t + ' }\n'))
+                edits.append((stmt_start(orig_body, mask, mm.start()), 0, gpre + '\n        proof { ' + t + ' }\n'))
             else:
-                edits.append((stmt_end(orig_body, mask, mm.start()), 0, '\n        proof { ' + t + ' }\n'))
+                edits.append((stmt_end(orig_body, mask, mm.start()), 0, gpre + '\n        proof { ' + t + ' }\n'))
     out = orig_body
     for pos, ln, text in sorted(edits, key=lambda e: (e[0], e[1]), reverse=True):
         out = out[:pos] + text + out[pos + ln:]
     if proof_entry:
         assert out[0] == '{'
         out = '{ proof { ' + proof_entry + ' }' + out[1:]
+    if ghost_entry:
+        # `ghost_entry X = EXPR`: a ghost snapshot of (typically) a `mut` parameter's initial value
+        gname, _, gexpr = subst_names(ghost_entry, names).partition('=')
+        out = '{ let ghost %s = %s;' % (gname.strip(), gexpr.strip()) + out[1:]
     return out
 
 
@@ -510,6 +539,7 @@ def emit_fn(item, fns_spec, loops_spec, used_fn, used_loop, defaulted, inferred=
     else:
         used_fn.add(item.name)
     header, has_ret = name_return(item.header)
+    _HEADERS[item.name] = item.header
     fn_need = None
     if sp.get('fuel'):
         # `fuel R N A`: the function needs R units of fuel at entry (look-aheads before its first consumed token);
@@ -538,7 +568,7 @@ def emit_fn(item, fns_spec, loops_spec, used_fn, used_loop, defaulted, inferred=
                     oid = 'opt:%s:%d' % (item.name, n_)
                     if oc.strip() and oid not in dropped_opt:
                         lines.append('        %s, /*@%s*/' % (subst_names(oc.strip(), fnames), oid))
-    body = weave_body(item.name, item.body, loops_spec, sp.get('proof_entry'), used_loop, fn_need)
+    body = weave_body(item.name, item.body, loops_spec, sp.get('proof_entry'), used_loop, fn_need, sp.get('ghost_entry'))
     return '\n'.join(lines) + '\n' + body + '\n'
 
 
